@@ -20,6 +20,7 @@ import (
 	"encoding/hex"
 	"encoding/json"
 	"fmt"
+	"math/rand"
 	"os"
 	"runtime/pprof"
 	"sort"
@@ -28,6 +29,7 @@ import (
 
 	"github.com/bytom/bytom/account"
 	"github.com/bytom/bytom/consensus"
+	"github.com/bytom/bytom/protocol"
 	"github.com/bytom/bytom/protocol/bc"
 	"github.com/bytom/bytom/protocol/bc/types"
 	"github.com/bytom/bytom/wallet"
@@ -67,6 +69,7 @@ type obs struct {
 	Orphans []int `json:"orphans"`
 	Best    int   `json:"best"`
 	Invalid []int `json:"invalid"`
+	Listable []int `json:"listable"`
 	Now     view  `json:"now"`
 	Nudge   view  `json:"nudge"`
 }
@@ -83,13 +86,14 @@ type divergence struct {
 }
 
 type stats struct {
-	cases, calls, nudged, shadowed, reorgs, utxos, usable, probes, probeBlocks, retried, tries, mints, keeperUsable int
+	cases, calls, nudged, shadowed, reorgs, utxos, usable, probes, probeBlocks, retried, tries, mints, keeperUsable, uncViews, uncOffered, uncJudged int
 	tOpen, tBuild, tRun, tCmp, tProbe                                                   time.Duration
 }
 
 var st stats
 var bs *base
 var maxDivs = 6 // divergences reported per scenario
+var curIdx int   // export index of the running case (seeds the choice of the stale unconfirmed listing)
 
 // how long the wallet may take to name the chain's best block after ProcessBlock returned (it needs milliseconds)
 const watchdog = 10 * time.Second
@@ -280,7 +284,7 @@ func replay(d doc) (divs []*divergence) {
 	if err != nil {
 		vh.Fatal("cannot reopen the node on the prefix: %v", err)
 	}
-	wal, _, err := openWallet(env, wkv)
+	wal, mgr, err := openWallet(env, wkv)
 	if err != nil {
 		vh.Fatal("cannot start the wallet: %v", err)
 	}
@@ -662,6 +666,128 @@ func replay(d doc) (divs []*divergence) {
 				bestHeight, kind, name, bs.acctOf[u.AccountID], u.ValidHeight, byReserve[u.OutputID], byParticular[u.OutputID], bestHeight+1, why, lockNote())
 		}
 	}
+	// the unconfirmed view: the wallet is told (wallet.AddUnconfirmedTx, the pool-message path) about transactions the
+	// specification allows to be still listed (those of stored blocks: the removal message lags, or the transaction went
+	// back to the pool and was mined again); what the wallet's own keeper then lists as unconfirmed is given to the keeper
+	// under test and Reserve / ReserveParticular are asked with useUnconfirmed. A *confirmed* wallet output (in the scan of
+	// the main chain, or in the wallet DB) that is handed out must be Spendable at the next height; outputs known only from
+	// the listing are not judged.
+	if len(d.Obs.Listable) > 0 {
+		sort.Ints(d.Obs.Listable)
+		for _, t := range d.Obs.Listable {
+			if mt := bs.txs[t]; mt != nil {
+				wal.AddUnconfirmedTx(&protocol.TxDesc{Tx: mt.Tx})
+			}
+		}
+		listed := mgr.ListUnconfirmedUtxo("", false)
+		sort.Slice(listed, func(i, j int) bool { return listed[i].OutputID.String() < listed[j].OutputID.String() })
+		outOfTx := map[bc.Hash]int{}
+		for _, t := range d.Obs.Listable {
+			if mt := bs.txs[t]; mt != nil {
+				for _, id := range mt.Tx.ResultIds {
+					outOfTx[*id] = t
+				}
+			}
+		}
+		// two listings: everything listable, and a subset drawn from the seed and the case
+		subsets := [][]int{d.Obs.Listable}
+		rng := rand.New(rand.NewSource(vh.Seed()*1000003 + int64(curIdx)))
+		var sub []int
+		for _, t := range d.Obs.Listable {
+			if rng.Intn(2) == 0 {
+				sub = append(sub, t)
+			}
+		}
+		if len(sub) > 0 && len(sub) < len(d.Obs.Listable) {
+			subsets = append(subsets, sub)
+		}
+		confirmed := func(id bc.Hash) (string, bool) {
+			name, ok := s.coinOfID[id]
+			if !ok {
+				return "", false
+			}
+			_, inScan := want[name]
+			return name, inScan || got[name] != nil
+		}
+		for _, ss := range subsets {
+			st.uncViews++
+			in := map[int]bool{}
+			for _, t := range ss {
+				in[t] = true
+			}
+			var feed []*account.UTXO
+			for _, u := range listed {
+				if in[outOfTx[u.OutputID]] {
+					c := *u
+					feed = append(feed, &c)
+				}
+			}
+			offered := map[bc.Hash]string{} // output -> keeper call that handed it out
+			k3 := account.NewVerifKeeper(env.Chain.BestBlockHeight, wkv)
+			k3.AddUnconfirmed(feed)
+			for _, a := range []string{"A", "B"} {
+				for _, vote := range [][]byte{nil, bs.voteKey} {
+					for n := 0; n < 64; n++ {
+						r, err := k3.Reserve(bs.acctID[a], consensus.BTMAssetID, 1, true, vote, exp)
+						if err != nil || r == nil {
+							break
+						}
+						for _, o := range r.Outputs {
+							offered[o] = "reserve"
+						}
+					}
+				}
+			}
+			k4 := account.NewVerifKeeper(env.Chain.BestBlockHeight, wkv)
+			k4.AddUnconfirmed(feed)
+			ids := map[bc.Hash]bool{}
+			for _, u := range std {
+				ids[u.OutputID] = true
+			}
+			for _, u := range feed {
+				ids[u.OutputID] = true
+			}
+			var idl []bc.Hash
+			for id := range ids {
+				idl = append(idl, id)
+			}
+			sort.Slice(idl, func(i, j int) bool { return idl[i].String() < idl[j].String() })
+			for _, id := range idl {
+				if _, err := k4.ReserveParticular(id, true, exp); err == nil {
+					if _, ok := offered[id]; !ok {
+						offered[id] = "particular"
+					}
+				}
+			}
+			for _, id := range idl {
+				via, ok := offered[id]
+				if !ok {
+					continue
+				}
+				st.uncOffered++
+				name, conf := confirmed(id)
+				if !conf {
+					continue // known only from the unconfirmed listing: outside C25
+				}
+				st.uncJudged++
+				if spendable[name] || specBad[id] {
+					continue // spendable, or already reported through the confirmed view
+				}
+				kind := s.coins[name].Kind
+				why := map[bool]string{true: "immature", false: "locked"}[kind == "coinbase"]
+				if v.Ledger[name] != "unspent" {
+					why = v.Ledger[name]
+				}
+				add("C25", "usable-unspendable:"+kind+":"+why+":"+rs+":unconfirmed-view:"+via, "at best height %d, with transactions %v still listed as unconfirmed, the keeper hands out the confirmed %s output %s (%s with useUnconfirmed; the wallet DB record has valid height %d); consensus does not let a block at height %d spend it: %s%s",
+					bestHeight, ss, kind, name, map[string]string{"reserve": "Reserve", "particular": "ReserveParticular only"}[via], func() uint64 {
+						if g := got[name]; g != nil {
+							return g.ValidHeight
+						}
+						return 0
+					}(), bestHeight+1, why, lockNote())
+			}
+		}
+	}
 	// binding to consensus: a real block at the next height spending every usable output
 	if len(usable) > 0 && !shadowed {
 		process := func(us []*account.UTXO) bool {
@@ -849,6 +975,7 @@ func main() {
 				return false, err
 			}
 			vh.Cur(idx / stride)
+			curIdx = idx
 			st.cases++
 			for _, c := range d.Calls {
 				if c.Op == "deliver" {
@@ -868,7 +995,7 @@ func main() {
 			vh.Fatal("worker: %v", err)
 		}
 		vh.Summary(map[string]interface{}{"partial": true, "cases": st.cases, "calls": st.calls, "distinct": len(shapes), "nudged": st.nudged,
-			"skipped_shadowed": st.shadowed, "reorg_cases": st.reorgs, "utxos_compared": st.utxos, "usable_checked": st.usable, "usable_by_keeper": st.keeperUsable,
+			"skipped_shadowed": st.shadowed, "reorg_cases": st.reorgs, "utxos_compared": st.utxos, "usable_checked": st.usable, "usable_by_keeper": st.keeperUsable, "unconfirmed_views": st.uncViews, "unconfirmed_offered": st.uncOffered, "unconfirmed_offered_confirmed_judged": st.uncJudged,
 			"mint_tries": st.tries, "mints": st.mints, "probe_spends": st.probes, "probe_blocks": st.probeBlocks, "retried": st.retried,
 			"ms_open": int(st.tOpen / time.Millisecond), "ms_build": int(st.tBuild / time.Millisecond), "ms_run_total": int(st.tRun / time.Millisecond),
 			"ms_compare": int(st.tCmp / time.Millisecond), "ms_probe": int(st.tProbe / time.Millisecond)})
